@@ -14,7 +14,7 @@ func init() {
 	register(&propDef{
 		ID: "C16",
 		Meta: propMeta{
-			Explanation: "Decides the structural mechanisms that make re-encoding lossless: (R16a) type shape — ContentInfo and SignerInfo capture their original encoding in a leading asn1.RawContent field, certificates, attribute values and issuer names are asn1.RawValue, marshalCertificates fills FullBytes from cert.Raw (removing any of these makes encoding/asn1 re-encode signed parts); (R16b) signed attributes are digested in the encoding that is emitted: the verifier hashes AuthenticatedAttributesBytes(), which returns the re-marshalled list only when no raw content was captured and otherwise re-tags the original bytes; the builder hashes and emits the same attribute list; (R16c) content-type and message-digest are added exactly once, only by SignatureBuilder.Sign under `authAttrs != nil`, with the builder's content type and digest; no other code adds those OIDs; no function calls Sign() twice on one builder or in a loop; (R16d) every SignatureBuilder.Sign result flows into pkcs9.TimestampAndMarshal, which self-checks (SignedData.Verify + VerifyOptionalTimestamp) before marshalling and returns the marshalled bytes of that same structure; (R16e) in lib/pkcs7 and lib/pkcs9 no failure branch of asn1.Marshal/Unmarshal reaches a nil-error return (one unreachable site noted); (R16f) Detach replaces the content by a content-less ContentInfo of the same type. (R16h) SignedData.CRLs keeps each CRL's signed part raw (asn1.RawValue or a tbsCertList with a leading RawContent); NewContentInfo records the content type it was asked for on every path; no parsed structure that is returned aliases a buffer that goes back into a sync.Pool.",
+			Explanation: "Decides the structural mechanisms that make re-encoding lossless: (R16a) type shape — ContentInfo and SignerInfo capture their original encoding in a leading asn1.RawContent field, certificates, attribute values and issuer names are asn1.RawValue, marshalCertificates fills FullBytes from cert.Raw (removing any of these makes encoding/asn1 re-encode signed parts); (R16b) signed attributes are digested in the encoding that is emitted: the verifier hashes AuthenticatedAttributesBytes(), which returns the re-marshalled list only when no raw content was captured and otherwise re-tags the original bytes; the builder hashes and emits the same attribute list; (R16c) content-type and message-digest are added exactly once, only by SignatureBuilder.Sign under `authAttrs != nil`, with the builder's content type and digest; no other code adds those OIDs; no function calls Sign() twice on one builder or in a loop; (R16d) every SignatureBuilder.Sign result flows into pkcs9.TimestampAndMarshal, which self-checks (SignedData.Verify + VerifyOptionalTimestamp) before marshalling and returns the marshalled bytes of that same structure; (R16e) in lib/pkcs7 and lib/pkcs9 no failure branch of asn1.Marshal/Unmarshal reaches a nil-error return (one unreachable site noted); (R16f) Detach replaces the content by a content-less ContentInfo of the same type. (R16h) SignedData.CRLs keeps each CRL's signed part raw (asn1.RawValue or a tbsCertList with a leading RawContent); NewContentInfo records the content type it was asked for on every path; no parsed structure that is returned aliases a buffer that goes back into a sync.Pool. (R16g) a ContentInfo handed to the builder is stored, digested and emitted as it is.",
 			NotDecided:  "byte identity of Marshal(Unmarshal(x)) on concrete values (a property of encoding/asn1 on data), BER quirks of third-party tokens.",
 			Assumptions: []string{"encoding/asn1 writes RawContent / RawValue.FullBytes verbatim"},
 		},
